@@ -361,6 +361,9 @@ impl PropertySet {
         for (_, value) in self.properties.iter() {
             value.write(writer.by_ref(), self.codepage)?;
         }
+        // The writer may be buffered (e.g. a CFB stream, whose destructor
+        // ignores errors), so make sure that any write error is reported.
+        writer.flush()?;
         Ok(())
     }
 
